@@ -547,17 +547,19 @@ def bits_eval(fx, e, env, depth=5):
             return (a << b) & M64 if b < 64 else None
         if op == "Shr":
             return (a >> b) if b < 64 else None
+        if op in ("Rem", "Div"):
+            return None if b == 0 else (a % b if op == "Rem" else a // b)
         return {"BitAnd": a & b, "BitOr": a | b, "BitXor": a ^ b, "Add": (a + b) & M64, "Sub": (a - b) & M64, "Mul": (a * b) & M64,
-                "Eq": int(a == b), "Ne": int(a != b)}.get(op)
+                "Eq": int(a == b), "Ne": int(a != b), "Lt": int(a < b), "Le": int(a <= b), "Gt": int(a > b), "Ge": int(a >= b)}.get(op)
     if k == "call" and isinstance(e[1], str) and depth > 0:
         cb = fx.body(e[1])
-        if cb is None or cb.kind not in ("Fn", "AssocFn") or cb.n > 40:
+        if cb is None or cb.kind not in ("Fn", "AssocFn") or cb.n > 150:
             return None
         args = [bits_eval(fx, a, env, depth) for a in e[2]]
         if any(a is None for a in args):
             return None
         cenv = {i + 1: a for i, a in enumerate(args)}
-        for conds, ret, last in decision_paths(cb, 64):
+        for conds, ret, last in decision_paths(cb, 64, track_op_assign=True):
             if ret is None:
                 continue
             feasible = True
